@@ -79,13 +79,24 @@ def dec_val(enc):
     return None if m is None else ("n", m[0], m[1])
 
 
+def coq_Z(n):
+    """big literals in hexadecimal: Coq parses a 400-digit decimal literal in 0.3 s, the hex one in 0.01 s"""
+    if abs(n) < 10 ** 18:
+        return C.coq_Z(n)
+    return "(- 0x%x)%%Z" % -n if n < 0 else "0x%x%%Z" % n
+
+
+def coq_pos(n):
+    return "%d%%positive" % n if n < 10 ** 18 else "0x%x%%positive" % n
+
+
 def coq_q(q):
-    return "(Qmake %s %d%%positive)" % (C.coq_Z(q.numerator), q.denominator)
+    return "(Qmake %s %s)" % (coq_Z(q.numerator), coq_pos(q.denominator))
 
 
 def coq_num(kind, q):
     if kind == "I":
-        return "(NInt %s)" % C.coq_Z(q.numerator)
+        return "(NInt %s)" % coq_Z(q.numerator)
     return "(%s %s)" % ("NFrac" if kind == "F" else "NFlt", coq_q(q))
 
 
@@ -99,10 +110,10 @@ def coq_arg(text, v):
         return "(AQ %s [%s])" % (coq_num(v[1], v[2]), ";".join(C.coq_Z(int(x)) for x in v[3].split(",")))
     m = LAZY_RE.match(text)
     if m:
-        return "(AN (lazy_factorial %s))" % C.coq_Z(int(m.group(1)))
+        return "(AN (lazy_factorial %s))" % coq_Z(int(m.group(1)))
     m = CHOOSE_RE.match(text)
     if m:
-        return "(AN (lazy_choose %s %s))" % (C.coq_Z(int(m.group(1))), C.coq_Z(int(m.group(2))))
+        return "(AN (lazy_choose %s %s))" % (coq_Z(int(m.group(1))), coq_Z(int(m.group(2))))
     return "(AN (CNum %s))" % coq_num(v[1], v[2])
 
 
@@ -666,11 +677,11 @@ def judge(case, vals, obs, plan, wrap, ref, ref_exact):
         iv, why = impl_number(obs, wrap)
         if iv is None:
             return dict(kind="result-shape", fn=fn, kinds=kinds), "%s: %s" % (text, why), True
-        if isinstance(ref_exact, Fraction) and not close(iv[1], ref_exact) and not (ref_exact != 0 and abs(ref_exact) < TOL and abs(iv[1]) < TOL):
-            return (dict(kind="inaccurate-unrepresentable-argument", fn=fn, kinds=kinds),
-                    "%s = %r but the function of the exact argument is %r (%s; beyond what the property demands)" % (text, float(iv[1]), float(ref_exact), unrep), False)
-        if ref_exact == "TINY" and abs(iv[1]) > TOL:
-            return dict(kind="inaccurate-unrepresentable-argument", fn=fn, kinds=kinds), "%s = %r, expected ~0" % (text, float(iv[1])), False
+        # the property makes no demand on the value here; where CPython nevertheless computes with the exact
+        # argument (math.log of a huge int) the value is compared with the true function all the same
+        if unrep == "argument beyond the double range" and isinstance(ref_exact, Fraction) and not close(iv[1], ref_exact):
+            return (dict(kind="inaccurate-huge-argument", fn=fn, kinds=kinds),
+                    "%s = %r but the function of the exact argument is %r (beyond what the property demands)" % (text, float(iv[1]), float(ref_exact)), False)
         return None
     if isinstance(ref, tuple):
         return dict(kind="reference-failed", fn=fn), "no reference value for %s: %s" % (text, ref[1]), False
@@ -746,7 +757,10 @@ def run(ctx):
                           "C16: %s = %s; Coq-Interval certifies the real value within 1e-14 of %s" % (t, o.get("value") or o.get("raw"), float(y0)),
                           dict(text=t, expect="finite", certified=str(y0)))
 
+    import time
+    t0 = time.time()
     obs = C.run_impl(impl_case, cases, ctx["rundir"], limit=10.0)
+    C.log("c16: implementation %d cases %.1fs" % (len(cases), time.time() - t0))
     live, skipped = [], 0
     for c, o in zip(cases, obs):
         if o.get("hung"):
@@ -766,14 +780,16 @@ def run(ctx):
         # are instant in CPython) are judged by the oracle only
         v = c["vals"]
         c["nomodel"] = (c["fn"] == "^" and len(v) == 2 and v[1][0] == "n" and v[1][1] == "I" and abs(v[1][2]) > 4096
-                        and v[0][0] == "n" and v[0][1] in ("I", "F"))
+                        and v[0][0] == "n" and v[0][1] in ("I", "F")) or \
+                       (c["plan"][0] == "V" and c["plan"][2].numerator.bit_length() + c["plan"][2].denominator.bit_length() > 3000)
     model = None
     if ctx["model_ok"]:
         dummy = "(E1 FAbs, [AN (CNum (NInt 0%Z))])"
         model = C.run_model(ctx["rundir"], "c16", IMPORTS, "fun c => show_eplan (eplan (fst c) (snd c))",
-                            [dummy if c["nomodel"] else coq_case(c["fn"], c["args"], c["vals"]) for c in live], shard=250,
+                            [dummy if c["nomodel"] else coq_case(c["fn"], c["args"], c["vals"]) for c in live], shard=100,
                             case_type="efun * list earg")
         model = [None if c["nomodel"] else m for c, m in zip(live, model)]
+    C.log("c16: model %.1fs" % (time.time() - t0))
     # reference values for every libm call the oracle names
     calls, where = [], []
     for i, c in enumerate(live):
@@ -788,6 +804,7 @@ def run(ctx):
             calls.append((c["plan"][1], args))
             where.append((i, "ref_exact"))
     refs = reference(calls, ctx["rundir"])
+    C.log("c16: %d reference values %.1fs" % (len(calls), time.time() - t0))
     for (i, key), r in zip(where, refs):
         live[i][key] = r
 
